@@ -246,20 +246,38 @@ def season_aggregate_calendar(chk, prog, rule: str):
 # --------------------------------------------------------------------------------------------- adjusted field capacity: two implementations
 
 class _CanonFC(ast.NodeTransformer):
-    """spell-independent form of the adjusted-field-capacity loop: hydraulic properties of the current compartment -> FC / S,
-    the compartment centre -> Z, the water-table depth (any name / attribute whose last component contains 'gw') -> G"""
+    """spell-independent form of the adjusted-field-capacity loop: the hydraulic properties of a compartment -> FC[<idx>] / S[<idx>], the
+    compartment centre -> Z[<idx>], the water-table depth (any name / attribute whose last component contains 'gw') -> G. <idx> is the
+    compartment the value belongs to: 'k' for the counter of the enclosing while loop, 'i' for the variable of an inner for loop. Row locals
+    (`row = profile.loc[idx]`, then `row.th_fc`) and hoisted scalars (`th_fc = prof.th_fc[idx]`) are resolved through `subst`."""
+    def __init__(self, idx_names=None, subst=None):
+        self.idx_names = idx_names or {}
+        self.subst = subst or {}
+
+    def _idx(self, sl):
+        return _fc_index(sl, self.idx_names)
+
+    def _prop(self, attr, idx):
+        base = "FC" if attr == "th_fc" else "S"
+        if idx is None:
+            return ast.Name(id=base, ctx=ast.Load())
+        return ast.Subscript(value=ast.Name(id=base, ctx=ast.Load()), slice=ast.Name(id=idx, ctx=ast.Load()), ctx=ast.Load())
+
     def visit_Subscript(self, n):
-        t = ast.unparse(n)
-        if "zMid" in t or "zmid" in t.lower():
-            return ast.Name(id="Z", ctx=ast.Load())
+        t = ast.unparse(n.value)
+        if "zmid" in t.lower():
+            return ast.Subscript(value=ast.Name(id="Z", ctx=ast.Load()), slice=ast.Name(id=self._idx(n.slice), ctx=ast.Load()), ctx=ast.Load())
         v = n.value
         if isinstance(v, ast.Attribute) and v.attr in ("th_fc", "th_s"):
-            return ast.Name(id="FC" if v.attr == "th_fc" else "S", ctx=ast.Load())
+            return self._prop(v.attr, self._idx(n.slice))
         return self.generic_visit(n)
 
     def visit_Attribute(self, n):
         if n.attr in ("th_fc", "th_s"):
-            return ast.Name(id="FC" if n.attr == "th_fc" else "S", ctx=ast.Load())
+            # a row local: the index the row was taken at
+            if isinstance(n.value, ast.Name) and n.value.id in self.subst and self.subst[n.value.id][0] == "row":
+                return self._prop(n.attr, self.subst[n.value.id][1])
+            return self._prop(n.attr, None)
         if "gw" in n.attr.lower():
             return ast.Name(id="G", ctx=ast.Load())
         return self.generic_visit(n)
@@ -267,6 +285,8 @@ class _CanonFC(ast.NodeTransformer):
     def visit_Name(self, n):
         if "gw" in n.id.lower():
             return ast.Name(id="G", ctx=n.ctx)
+        if isinstance(n.ctx, ast.Load) and n.id in self.subst and self.subst[n.id][0] == "scalar":
+            return self._prop(self.subst[n.id][1], self.subst[n.id][2])
         return n
 
     def visit_BinOp(self, n):
@@ -277,6 +297,15 @@ class _CanonFC(ast.NodeTransformer):
         return n
 
 
+def _fc_index(sl, idx_names):
+    """canonical compartment index; the slice `[: k + 1]` (all compartments down to the counter's) is the range the inner loop `i` runs over"""
+    if isinstance(sl, ast.Slice) and sl.lower is None and sl.step is None and isinstance(sl.upper, ast.BinOp) and isinstance(sl.upper.op, ast.Add) \
+            and isinstance(sl.upper.left, ast.Name) and idx_names.get(sl.upper.left.id) == "k" and isinstance(sl.upper.right, ast.Constant) and sl.upper.right.value == 1:
+        return "i"
+    t = ast.unparse(sl)
+    return idx_names.get(t, t)
+
+
 def _fc_shape(fn_node: ast.AST):
     """(tests, defining expressions) of the loop that computes the adjusted field capacity"""
     import copy
@@ -284,16 +313,43 @@ def _fc_shape(fn_node: ast.AST):
     if len(loops) != 1:
         return None
     w = loops[0]
+    # canonical names of the compartment indices
+    idx_names = {}
+    if isinstance(w.test, ast.Compare) and isinstance(w.test.left, ast.Name):
+        idx_names[w.test.left.id] = "k"
+    for x in ast.walk(w):
+        if isinstance(x, ast.For) and isinstance(x.target, ast.Name):
+            idx_names[x.target.id] = "i"
+    # row locals and hoisted scalars defined inside the loop (one definition each; otherwise left alone)
+    cand = {}
+    for x in ast.walk(w):
+        if isinstance(x, ast.Assign) and len(x.targets) == 1 and isinstance(x.targets[0], ast.Name):
+            cand.setdefault(x.targets[0].id, []).append(x.value)
+    subst = {}
+    for nm, vals in cand.items():
+        if len(vals) != 1:
+            continue
+        v = vals[0]
+        if isinstance(v, ast.Subscript) and isinstance(v.value, ast.Attribute) and v.value.attr in ("loc", "iloc"):
+            t = ast.unparse(v.slice)
+            subst[nm] = ("row", idx_names.get(t, t))
+        elif isinstance(v, ast.Subscript) and isinstance(v.value, ast.Attribute) and v.value.attr in ("th_fc", "th_s"):
+            t = ast.unparse(v.slice)
+            subst[nm] = ("scalar", v.value.attr, idx_names.get(t, t))
+    for nm, vals in cand.items():
+        v = vals[0]
+        if len(vals) == 1 and isinstance(v, ast.Attribute) and v.attr in ("th_fc", "th_s") and isinstance(v.value, ast.Name) and subst.get(v.value.id, ("",))[0] == "row":
+            subst[nm] = ("scalar", v.attr, subst[v.value.id][1])
+    canon = lambda e: ast.unparse(_CanonFC(idx_names, subst).visit(copy.deepcopy(e)))
     tests, defs = [], []
     for x in ast.walk(w):
         if isinstance(x, (ast.If, ast.While)):
-            tests.append(ast.unparse(_CanonFC().visit(copy.deepcopy(x.test))))
+            tests.append(canon(x.test))
         if isinstance(x, ast.Assign) and isinstance(x.targets[0], ast.Name) and x.targets[0].id in ("Xmax", "pF", "dV", "dFC"):
-            defs.append(x.targets[0].id + " = " + ast.unparse(_CanonFC().visit(copy.deepcopy(x.value))))
+            defs.append(x.targets[0].id + " = " + canon(x.value))
         if isinstance(x, ast.Assign) and isinstance(x.targets[0], ast.Subscript) and isinstance(x.targets[0].value, ast.Name) and "fc" in x.targets[0].value.id.lower():
-            defs.append("ADJ[.] = " + ast.unparse(_CanonFC().visit(copy.deepcopy(x.value))))
-    norm_pow = lambda s: s
-    return sorted(norm_pow(t) for t in tests), sorted(norm_pow(d) for d in defs)
+            defs.append(f"ADJ[{_fc_index(x.targets[0].slice, idx_names)}] = " + canon(x.value))
+    return sorted(tests), sorted(defs)
 
 
 def adjusted_fc_agreement(chk, prog, rule: str):
